@@ -20,9 +20,29 @@
     Trace_FsWrite: the system calls of the real write-back recorded with strace for each of 12 layouts (those, and the
     home / configuration directory / file name taken from the environment, home "."), AtomicOnDisk -- on the entry
     the configuration path leads to through the links as they are at that instant -- after every call.
+    Second strengthening (the configuration space beyond the file's lines).  Model: the observer registry is a state
+    variable written at any time (ObsAdd under a new and under a taken name; ObserversNotified quantifies over the
+    observers registered NOW that were registered at the last notification round), the process environment is part of
+    the state (a key ABSENT from the map is answered from the variable of that name, a key the file sets -- also to the
+    empty value -- from the file: VisibleThroughGetters), the file can be deleted and created again between any two
+    steps (a file that disappears after it was loaded resets the map to the library's defaults in ONE critical
+    section: NoTornState -- whenever the lock is free every key has its value of before or of after the reload in
+    progress --, DefaultsWhenGone; the parser failing on a file that vanished after the stat: RlParseFail).  Three more
+    designs are refuted (registration-ordered list that grows only with new names / map emptied and defaults filled in
+    in two critical sections / environment fallback on an empty value).  Histories: Add calls before the constructor,
+    between polls and inside a reload taken apart (new names, taken names, one object under two names), every
+    notification records WHO was called; environment variables named like keys that are absent, present and
+    present-but-empty in the file, set / changed / unset during the history; the file unlinked, renamed away or its
+    symbolic link left dangling between polls and inside a reload taken apart, write-backs while it is away, a
+    configuration constructed before its file exists; the 8 concurrent readers now also face polls that find the file
+    gone (their observations -- every one that differs from the reader's previous one of the same key is kept -- must
+    be the value of the file version or of the defaults version, never of an empty map) and an environment that names
+    a key the file always sets.
 Open known findings (generators steer around them only while they are listed in known-findings.json; witnesses
-kf_wbsyntax, kf_wbescape): the write-back understands only `key=value` lines and writes no escapes."""
+kf_wbsyntax, kf_wbescape): the write-back understands only `key=value` lines and writes no escapes.
+C18-read-fatal (witness kf_vanish, PENDING below): the library's parser terminates the process when the file is not there."""
 import copy, json, os, re
+from concurrent.futures import ThreadPoolExecutor
 import vf
 
 ASIS = [  # (cfg, invariant TLC must refute, what golib did)
@@ -32,7 +52,20 @@ ASIS = [  # (cfg, invariant TLC must refute, what golib did)
     ("MC_FileConfig_asis_trunc.cfg", "AtomicOnDisk", "open O_TRUNC, write, fsync, close"),
     # not a former design: the variant a reload that 'remembers the version after it was loaded' would be
     ("MC_FileConfig_alt_restat.cfg", "EventuallyVisible", "stamp remembered from a second stat taken after the parse"),
+    # three more designs golib never had; each stands for a region of the configuration space the model explores
+    ("MC_FileConfig_alt_obslist.cfg", "ObserversNotified", "notification goes through a registration-ordered list that grows only with new names"),
+    ("MC_FileConfig_alt_gonesplit.cfg", "NoTornState", "a file that disappeared: map emptied in one critical section, defaults filled in in a second one"),
+    ("MC_FileConfig_alt_envempty.cfg", "VisibleThroughGetters", "environment fallback when the map's value is empty instead of when the key is absent"),
 ]
+
+# A defect the widened histories exposed on the tree as it is (the file vanishing between a reload's stat and the
+# parser's read terminates the process).  Until known-findings.json says otherwise (an entry with this id, open or
+# fixed) it is treated as an OPEN known finding: its witness is re-judged on every run (KNOWN-FINDING line) and the
+# generators steer around exactly that signature; once the entry says "fixed" the generators impose it.
+PENDING = dict(
+    id="C18-read-fatal", property="C18", status="open",
+    what="DefaultFileParser.Read/Write load the file with properties.MustLoadFile, whose failure handler is log.Fatal: a configuration file that vanishes between reload's stat and the read (an editor that unlinks and re-creates it), that is missing when SetValues is called, or that the parser rejects terminates the whole process; e.g. file 'a=1\\nb=2\\n' loaded, file replaced by 'a=2\\nb=2\\nc=3\\n', the poll's stat sees the change, the file is unlinked, the parser reads: exit status 1 (kf_vanish/0)",
+    witness=dict(driver="c18", gen="kf_vanish", case=0))
 
 
 def sensitivity(run):
@@ -71,7 +104,60 @@ def _edit_inside_reload(evs):
     return None
 
 
-def binding_selftest(run, out, meta, gen, target, corrupt, remove_ev, pick_remove=None):
+def _obsadd_that_is_called(evs):
+    """an Add whose observer a later notification round calls: with another object number, or without the Add, those
+    calls cannot be explained"""
+    for i, e in enumerate(evs):
+        if e["ev"] == "ObsAdd":
+            for f in evs[i + 1:]:
+                if any(n.get("o") == e["id"] for n in (f.get("notes") or [])):
+                    return i
+    return None
+
+
+def _delete_that_resets(evs):
+    """the file taken away after it had been loaded, directly followed by a poll that shows the library's defaults"""
+    defs = sorted(map(json.dumps, evs[0].get("libdefs") or []))
+    loaded = False
+    for i, e in enumerate(evs[:-1]):
+        if e["ev"] in ("New", "Reload", "RlEnd") and e.get("snap"):
+            loaded = True
+        if e["ev"] == "Delete" and loaded and evs[i + 1]["ev"] == "Reload" and sorted(map(json.dumps, evs[i + 1].get("snap") or [])) == defs:
+            return i
+    return None
+
+
+def _env_that_answers(evs):
+    """the event (Reset or Env) that gave an environment variable the value a later getter returned for a key the map
+    does not have"""
+    env, src = {}, {}
+    for p in evs[0].get("penv") or []:
+        env[json.dumps(p[0])], src[json.dumps(p[0])] = p[1], 0
+    for i, e in enumerate(evs):
+        if e["ev"] == "Env":
+            k = json.dumps(e["k"])
+            if e["set"]:
+                env[k], src[k] = e["v"], i
+            else:
+                env.pop(k, None)
+        if e["ev"] == "Get" and e.get("g") == "Value" and e.get("ret") and env.get(json.dumps(e["k"])) == e["ret"]:
+            return src[json.dumps(e["k"])]
+    return None
+
+
+def _corrupt_obs_id(e):
+    e["id"] += 100                                # another observer object
+    return e
+
+
+def _corrupt_env(e):
+    if e["ev"] == "Env":
+        e["v"] = _flip(e["v"])
+        return e
+    return None
+
+
+def binding_selftest(run, out, meta, gen, target, corrupt, remove_ev, pick_remove=None, pick_target=None, tag=None):
     """Binding demonstration with a corruption that is decisive for this trace format (nested byte
     tuples): in the first history of `gen` that has an event `target`, (a) corrupt() changes one
     recorded observation of that event, (b) the first event `remove_ev` that is directly followed by a poll is removed; TLC must reject both."""
@@ -81,7 +167,12 @@ def binding_selftest(run, out, meta, gen, target, corrupt, remove_ev, pick_remov
         evs = [json.loads(x) for x in h]
         if evs[0].get("gen") != gen:
             continue
-        ti = next((i for i, e in enumerate(evs) if e["ev"] == target and corrupt(copy.deepcopy(e)) is not None), None)
+        if pick_target:
+            ti = pick_target(evs)
+            if ti is not None and (evs[ti]["ev"] != target or corrupt(copy.deepcopy(evs[ti])) is None):
+                ti = None
+        else:
+            ti = next((i for i, e in enumerate(evs) if e["ev"] == target and corrupt(copy.deepcopy(e)) is not None), None)
         # an event whose effect the very next poll must show to at least one observer
         if pick_remove:
             ri = pick_remove(evs)
@@ -99,8 +190,8 @@ def binding_selftest(run, out, meta, gen, target, corrupt, remove_ev, pick_remov
             run.trace_states = st
             res[tag + "_rejected"] = not acc
         res["corrupted"] = dict(event=ti, kind=target)
-        res["removed"] = dict(event=ri, kind=remove_ev)
-        run.selftests["Trace_FileConfig:" + gen] = res
+        res["removed"] = dict(event=ri, kind=evs[ri]["ev"])
+        run.selftests["Trace_FileConfig:" + gen + (":" + tag if tag else "")] = res
         if not (res["corrupted_field_rejected"] and res["removed_event_rejected"]):
             raise vf.MachineryError("binding self-test failed for Trace_FileConfig/%s: %s" % (gen, res))
         vf.log("SELFTEST Trace_FileConfig %s %s" % (gen, res))
@@ -132,8 +223,27 @@ def _corrupt_after(e):
 
 def body(run):
     th = run.thorough()
-    run.mc("MC_FileConfig", cfg="MC_FileConfig_thorough.cfg" if th else "MC_FileConfig.cfg", workers=run.pick(4, 16), coverage=not th)
-    sensitivity(run)
+    # (VERIF_C18_READ_FATAL_FIXED=1: judge a tree that carries the repair before known-findings.json records it)
+    if not any(k.get("id") == PENDING["id"] for k in run.kf) and not os.environ.get("VERIF_C18_READ_FATAL_FIXED"):
+        run.kf.append(dict(PENDING))
+
+    # the design-level runs do not depend on the driver: they run beside it (one TLC at a time)
+    def design():
+        run.mc("MC_FileConfig", cfg="MC_FileConfig_thorough.cfg" if th else "MC_FileConfig.cfg", workers=run.pick(4, 16), coverage=not th)
+        # the observer registry written at any time (two names, two further observers) against edits, deletions and reloads
+        run.mc("MC_FileConfig", cfg="MC_FileConfig_obs_thorough.cfg" if th else "MC_FileConfig_obs.cfg", workers=run.pick(4, 16))
+        sensitivity(run)
+
+    pool = ThreadPoolExecutor(max_workers=1)
+    mcs = pool.submit(design)
+    try:
+        traces(run)
+    finally:
+        pool.shutdown(wait=True)
+    mcs.result()          # a failure of the design runs is raised here
+
+
+def traces(run):
     if not os.path.exists("/usr/bin/strace") and not any(os.path.exists(os.path.join(p, "strace")) for p in os.environ.get("PATH", "").split(":")):
         raise vf.MachineryError("strace is not installed: the write-back's system calls cannot be recorded")
     out, meta = run.drive("c18", timeout=3000)
@@ -148,6 +258,9 @@ def body(run):
     binding_selftest(run, out, meta, "edit", "Reload", _corrupt_snap, "Edit")
     binding_selftest(run, out, meta, "wb", "SetValues", _corrupt_after, "SetValues")
     binding_selftest(run, out, meta, "ilv", "RlParse", _corrupt_parsed, "Edit", pick_remove=_edit_inside_reload)
+    # the rest of the configuration space is bound too: who is registered, whether the file is there, the environment
+    binding_selftest(run, out, meta, "edit", "ObsAdd", _corrupt_obs_id, "Delete", pick_target=_obsadd_that_is_called, pick_remove=_delete_that_resets, tag="registry+existence")
+    binding_selftest(run, out, meta, "edit", "Env", _corrupt_env, "ObsAdd", pick_target=_env_that_answers, pick_remove=_obsadd_that_is_called, tag="environment")
     run.selftest(out, meta, gen="sys", spec="Trace_FsWrite", field="data")
     run.assumptions += [
         "a reload is taken apart only where it calls out (parser, observers): an edit is imposed after the stat and before the file is read, after the file was read and before anything reload does next, and after the map assignment; an edit BETWEEN two reads of the parser (a file changing while it is being read) is not imposed -- the external writer of the histories replaces the file as a whole",
@@ -160,7 +273,10 @@ def body(run):
         "keys that left the file keep their last value in memory (the property is silent); blank lines and key lines with an empty value are not compared across a write-back; the order of NEW keys appended by a write-back is free",
         "float getters are judged exactly on a 24-literal reference table (IEEE binary32 patterns) and on malformed text; other well-formed literals only have to return some float",
         "hash-set getters are judged against standard-library CRC-32 / 31*h+b folds of the tokens",
-        "keys that name an environment variable, values containing ${...} expansions and files the properties parser rejects are not generated",
+        "keys that name a variable of the environment the check itself was started in are not generated (the histories set, change and unset variables of their own, named like keys that are absent, present and present-but-empty in the file, and the trace records them: event Env, Reset.penv); values containing ${...} expansions and files the properties parser rejects are not generated",
+        "a file that disappears after it was loaded resets the configuration to the library's defaults (what the public ApplyDefault() puts into an empty configuration; recorded once per history) and the observers are NOT told: that is what the code does on purpose and the property, which speaks of the file's key=value pairs, is silent about it; what is required there is that no getter sees a map that is neither the one before nor the defaults",
+        "observers are added before the constructor, between polls and -- in the reloads taken apart -- after the stat and after the parse, never from inside an observer's callback (a Go map written while it is iterated may or may not show the new entry); one notification round must call, once per registered name, the observer registered under it when the round runs",
+        "while C18-read-fatal is open no history lets the file vanish between a reload's stat and the parser's read and no write-back is asked for while the file is away (the witness kf_vanish does both, in a child process); once it is recorded as fixed the generators ilv / edit / wb impose both (events RlParseFail, RlAbort, SetValuesGone)",
         "AtomicOnDisk is judged at every system-call boundary of the recorded write-back (strace, successful calls on the configuration directory) and, for a write call on the inode the name refers to, additionally with the write cut after its first byte, in the middle and before its last byte; page-cache/journal behaviour below the system-call interface (e.g. a rename reaching the disk before the data when fsync is omitted) is not modelled",
         "concurrent getters: each observation carries the interval of reloads it overlapped (atomic counters read before and after the call); it must equal the value in one of those versions; a Go runtime abort of the child is an event without an action",
     ]
